@@ -619,7 +619,13 @@ def submission(rng: random.Random) -> Dict[str, Any]:
             script.append(rng.choice(['R', 'U', 'O']))
         elif r < 0.74:
             script.append('D')
-        elif r < 0.82:
+        elif r < 0.80:
+            script.append('X')              # orphan attempt; the orphan loop usually runs soon after
+            if rng.random() < 0.7:
+                script.append('O')
+        elif r < 0.84:
+            script.append('L')
+        elif r < 0.90:
             script.append('F')
         else:
             g = rng.choice(groups)
